@@ -162,6 +162,9 @@ type Unit struct {
 	ftype    *ast.FuncType
 	captured []*types.Var
 	axiomsUsed []string
+	loopPre  []*State
+	elemAlias map[types.Object]elemAlias
+	returnOrd map[*ast.ReturnStmt]int
 }
 
 func (u *Unit) fresh(prefix, sort string) string {
